@@ -8,6 +8,7 @@ import (
 
 	"pgregory.net/rapid"
 
+	"verif/fakemaster"
 	"verif/gen"
 	"verif/hist"
 )
@@ -19,6 +20,9 @@ type E2ECase struct {
 	StartIdx int
 	Pacing   int
 	ServerID uint32
+	// Chop != 0: the master's bytes arrive in pieces of pseudo-random sizes (packet headers and bodies split
+	// over several reads of the replica)
+	Chop uint32 `json:",omitempty"`
 }
 
 func (c *E2ECase) layout() (*hist.Layout, hist.Pos, int, error) {
@@ -51,10 +55,10 @@ func runE2E(c *E2ECase) (*attemptState, []hist.ExpTx, *hist.Layout, error) {
 		return nil, nil, nil, fmt.Errorf("harness: %v", err)
 	}
 	defer ss.close()
-	st := ss.run(attempt{l: l, pacing: c.Pacing})
+	st := ss.run(attempt{l: l, pacing: c.Pacing, plan: &fakemaster.ConnPlan{Chop: c.Chop}})
 	st.drainLib()
-	if st.panicked != "" {
-		return st, exp, l, fmt.Errorf("%v", st.streamErr)
+	if err := st.panicErr(); err != nil {
+		return st, exp, l, err
 	}
 	if !st.served {
 		return st, exp, l, fmt.Errorf("harness: dump request %+v was not servable", st.dumpReq)
@@ -143,6 +147,12 @@ func drawE2E(rt *rapid.T, o gen.HistOpt) *E2ECase {
 	if l, err := c.H.Lay(); err == nil && len(l.Events) > 300 {
 		c.Pacing = PaceFarAhead // lock-step over thousands of packets would take seconds
 	}
+	if rapid.IntRange(0, 3).Draw(rt, "chop") == 0 {
+		c.Chop = rapid.Uint32Range(1, 1<<32-1).Draw(rt, "chop_seed")
+	}
+	if rapid.IntRange(0, 7).Draw(rt, "replica_id_is_event_id") == 0 {
+		c.ServerID = c.H.Cfg.ServerID // a ring of servers: events that carry the replica's own id are part of the binlog like any other
+	}
 	return c
 }
 
@@ -164,6 +174,11 @@ func TestC01(t *testing.T) {
 			}
 			return
 		}
+		if rapid.IntRange(0, 24).Draw(rt, "part_reannounce") == 0 {
+			// the same table id announced again with another definition (a master restart hands ids out anew)
+			reannouncePart(rt, rec, "C01")
+			return
+		}
 		c := drawE2E(rt, o)
 		l, start, su, err := c.layout()
 		if err != nil {
@@ -172,6 +187,9 @@ func TestC01(t *testing.T) {
 		exp := l.Expected(start, su)
 		nt := nontrivialRows(exp)
 		cls := histClasses(c.H)
+		if c.Chop != 0 {
+			cls = append(cls, "bytes-arrive-in-pieces")
+		}
 		if c.Pacing == PaceLockStep {
 			cls = append(cls, "lockstep")
 		}
